@@ -260,4 +260,77 @@ theorem invx_same {h : Heap} (hinv : InvX h) {x : Addr} {o o' : Obj} (hox : h[x]
     rw [hox] at ho2; cases ho2
     exact ⟨by rw [h1]; exact hm2, h2, h3⟩
 
+/-! ### transitions: the invariant afterwards, and frozen objects keep their slots -/
+
+def KeepImm (h h' : Heap) : Prop :=
+  ∀ (a : Addr) (o : Obj), h[a]? = some o → Frozen o →
+    ∃ o' : Obj, h'[a]? = some o' ∧ o'.isMut = o.isMut ∧ o'.sc = o.sc ∧ o'.refs = o.refs
+
+structure TrX (h h' : Heap) : Prop where
+  inv : InvX h'
+  keep : KeepImm h h'
+
+theorem TrX.refl {h : Heap} (hinv : InvX h) : TrX h h := ⟨hinv, fun _ o ho _ => ⟨o, ho, rfl, rfl, rfl⟩⟩
+
+theorem TrX.trans {h h1 h2 : Heap} (t1 : TrX h h1) (t2 : TrX h1 h2) : TrX h h2 := by
+  refine ⟨t2.inv, ?_⟩
+  intro a o ho hf
+  obtain ⟨o1, ho1, e1, e2, e3⟩ := t1.keep a o ho hf
+  obtain ⟨o2, ho2, f1, f2, f3⟩ := t2.keep a o1 ho1 (by unfold Frozen at hf ⊢; rw [e1, e2]; exact hf)
+  exact ⟨o2, ho2, by rw [f1, e1], by rw [f2, e2], by rw [f3, e3]⟩
+
+theorem trx_write {h : Heap} (hinv : InvX h) {x : Addr} {ox o' : Obj} (hox : h[x]? = some ox)
+    (hmx : ox.isMut = true) (hkx : ox.sc.kind ≠ 10) (hm' : o'.isMut = true) (hk' : o'.sc.kind = ox.sc.kind)
+    (ht' : TypedObj h o') : TrX h (h.set x o') := by
+  refine ⟨invx_write hinv hox hmx hkx hm' hk' ht', ?_⟩
+  intro a o ho hf
+  have hax : a ≠ x := by
+    intro e; subst e
+    rw [hox] at ho; cases ho
+    rcases hf with h1 | h1
+    · rw [hmx] at h1; cases h1
+    · exact hkx h1
+  exact ⟨o, by rw [List.getElem?_set_ne (fun e => hax e.symm)]; exact ho, rfl, rfl, rfl⟩
+
+theorem trx_ext {h : Heap} (hinv : InvX h) {e : Heap}
+    (hnew : ∀ o ∈ e, o.cHash = none ∧ o.cPy = none)
+    (hic : ImmClosedX (h ++ e)) (hk : KindOKX (h ++ e)) (ht : TypedRefs (h ++ e)) : TrX h (h ++ e) :=
+  ⟨invx_ext hinv hnew hic hk ht, fun _ o ho _ => ⟨o, getElem?_append_of_some e ho, rfl, rfl, rfl⟩⟩
+
+theorem trx_same {h : Heap} (hinv : InvX h) {x : Addr} {o o' : Obj} (hox : h[x]? = some o)
+    (h1 : o'.isMut = o.isMut) (h2 : o'.sc = o.sc) (h3 : o'.refs = o.refs)
+    (hc : o.isMut = false →
+      (∀ c, o'.cHash = some c → ∃ v, absVal h x = some v ∧ identOf v = .ok c) ∧
+      (∀ c, o'.cPy = some c → ∃ v, absVal h x = some v ∧ pyHashOf v = .ok c)) :
+    TrX h (h.set x o') := by
+  refine ⟨invx_same hinv hox h1 h2 h3 hc, ?_⟩
+  intro a oa hoa _
+  by_cases hax : a = x
+  · subst hax
+    rw [hox] at hoa; cases hoa
+    exact ⟨o', by simp [List.getElem?_set_self (List.getElem?_eq_some_iff.mp hox).1], h1, h2, h3⟩
+  · exact ⟨oa, by rw [List.getElem?_set_ne (fun e => hax e.symm)]; exact hoa, rfl, rfl, rfl⟩
+
+/-- frozen objects keep their value when they keep their slots -/
+theorem unfoldA_keep {h h' : Heap} (hic : ImmClosedX h) (hk : KindOKX h) (ht : TypedRefs h) (hkeep : KeepImm h h') :
+    ∀ {f : Nat} {a : Addr} {t : ATree}, unfoldA f h a = some t → (∀ o : Obj, h[a]? = some o → Frozen o) →
+      unfoldA f h' a = some t
+  | 0, _, _, hu, _ => by simp [unfoldA] at hu
+  | f + 1, a, t, hu, hfa => by
+    obtain ⟨o, kids, ho, hkids, rfl⟩ := unfoldA_succ hu
+    obtain ⟨o', ho', e1, e2, e3⟩ := hkeep a o ho (hfa o ho)
+    have := unfoldA_mk (f := f) ho' (kids := kids) (by
+      rw [e3]
+      apply mapO_congr_some _ hkids
+      intro c hc b hb
+      have hfc : ∀ oc : Obj, h[c]? = some oc → Frozen oc := by
+        intro oc hoc
+        rcases hfa o ho with hm | hf
+        · obtain ⟨oc', hoc', hfr⟩ := hic a o ho hm c hc
+          rw [hoc] at hoc'; cases hoc'; exact hfr
+        · obtain ⟨oc', hoc', hm'⟩ := frozen_child hk (ht a o ho) hf hc
+          rw [hoc] at hoc'; cases hoc'; exact Or.inl hm'
+      exact unfoldA_keep hic hk ht hkeep hb hfc)
+    rw [e1, e2] at this; exact this
+
 end BtcVerif.Model.Heap
